@@ -37,8 +37,8 @@ def unparse(c, table=None):
         for i, w in stmts: out += [i, w]
     table = table or []
     out.append(len(table))
-    for t, d8, d15, rt in table:
-        out += [t] + _comp(d8) + _comp(d15) + [rt]
+    for t, d8, d15, rt, rt1, rt2 in table:
+        out += [t] + _comp(d8) + _comp(d15) + [rt, rt1, rt2]
     for o in c['ops']:
         if o[0] == 'W': out += [0, o[1], o[2], o[3], o[4]]
         else: out += [1, o[1], o[2], o[3]]
@@ -70,7 +70,7 @@ def parse(case):
         c['decoys'].append((comps, stmts))
     table = []
     for _ in range(cu.next()):
-        t0 = cu.next(); a = cu.comp(); b = cu.comp(); r = cu.next(); table.append((t0, a, b, r))
+        t0 = cu.next(); a = cu.comp(); b = cu.comp(); r = cu.next(); r1 = cu.next(); r2 = cu.next(); table.append((t0, a, b, r, r1, r2))
     c['table'] = table
     ops = []
     while cu.more():
@@ -116,10 +116,40 @@ def split_impl(line):
     cu = _Cur([int(x) for x in orc.split()]); table = []
     try:
         for _ in range(cu.next()):
-            t = cu.next(); a = cu.comp(); b = cu.comp(); r = cu.next(); table.append((t, a, b, r))
+            t = cu.next(); a = cu.comp(); b = cu.comp(); r = cu.next(); r1 = cu.next(); r2 = cu.next(); table.append((t, a, b, r, r1, r2))
     except Exception:
         table = []
     return canon(obs), table
+
+
+# the model's code-variant flags (Rotate/RotModel.v: c_cntacct, c_plus24; 1 = the earlier, defective behaviour).
+# They are never taken from the case line: read_variant() sets them from the T-src facts that tools/srcfacts.py
+# (rot_facts) regenerated from the source tree, TieC14.v / TieC15.v prove them for the repaired tree.
+VARIANT = {'cntacct': 1, 'plus24': 1}
+
+
+def read_variant(ck=None):
+    from props.c01 import srcfacts_values
+    f = srcfacts_values()
+    vals = {k: f.get(k) for k in ('rot_size_counts_written_bytes', 'rot_daily_tomorrow_via_mktime')}
+    VARIANT['cntacct'] = 0 if vals['rot_size_counts_written_bytes'] == 'true' else 1
+    VARIANT['plus24'] = 0 if vals['rot_daily_tomorrow_via_mktime'] == 'true' else 1
+    if ck is not None:
+        ck.tie.append({'T-src facts': vals,
+                       'model variant for the correspondence': 'c_cntacct=%(cntacct)d c_plus24=%(plus24)d' % VARIANT,
+                       'lemmas': 'TieC14.src_cntacct_false, TieC14.c14_skeletons_ok, TieC15.src_plus24_false, TieC15.c15_skeleton_ok (vm_compute); Properties_C14.rot_code_variant, Properties_C15.C15_code_variant'})
+        if VARIANT['cntacct'] or VARIANT['plus24']:
+            ck.log('T-src: %s -> the source tree does not hold the repair of %s; the model runs that earlier variant' % (
+                vals, ' / '.join(n for n, k in (('D10', 'cntacct'), ('C15-daily-dst', 'plus24')) if VARIANT[k])))
+    return VARIANT
+
+
+def model_case(case, table):
+    """the model runner's line: the case with the oracle table filled in and the variant bits (bit 1 = c_cntacct,
+    bit 2 = c_plus24) written from VARIANT; bit 0 (c_prefix, D7) stays as the case has it"""
+    c = parse(case)
+    c['prefix'] = (c['prefix'] & 1) | (VARIANT['cntacct'] << 1) | (VARIANT['plus24'] << 2)
+    return unparse(c, table)
 
 
 def run_both(ck, mexe, iexe, cases, env=None):
@@ -129,7 +159,7 @@ def run_both(ck, mexe, iexe, cases, env=None):
     for cs, l in zip(cases, il_raw):
         o, tab = split_impl(l)
         il.append(o); tabs.append(tab)
-        mcases.append(unparse(parse(cs), tab))
+        mcases.append(model_case(cs, tab))
     ml = [canon(l) for l in ck.run_model(mexe, mcases)]
     return ml, il, tabs
 
@@ -327,8 +357,40 @@ def monitor_c14(case, impl_line):
 
 
 # ------------------------------------------------------------------ C15 monitor
+def daily_candidates(c, d, tz):
+    """the instants that are HH:MM:00 of local day d in the sink's zone (zoneinfo, independent of libc and of the
+    model).  One instant on an ordinary day; two when HH:MM lies in the hour repeated by a backward change of
+    the offset (the sink rotates at one of them, possibly at both: which, is the C library's choice for an
+    ambiguous local time); when HH:MM is skipped by a forward change the day's point is HH:MM reckoned with the
+    offset in force before the change (the same time elapsed since local midnight as on any other day; POSIX
+    mktime normalisation)."""
+    out = []
+    for fold in (0, 1):
+        loc = datetime.datetime(d.year, d.month, d.day, c['hh'], c['mm'], 0, tzinfo=tz, fold=fold)
+        g = int(loc.timestamp())
+        back = datetime.datetime.fromtimestamp(g, tz)
+        if (back.hour, back.minute, back.second) == (c['hh'], c['mm'], 0) and back.date() == d and g not in out:
+            out.append(g)
+    if not out:
+        out.append(int(datetime.datetime(d.year, d.month, d.day, c['hh'], c['mm'], 0, tzinfo=tz, fold=0).timestamp()))
+    return out
+
+
+def daily_days(c, lo_ns, hi_ns):
+    """[(day, [candidate instants in ns])] for the local days around [lo, hi]"""
+    tz = zone_of(c)
+    d = datetime.datetime.fromtimestamp(lo_ns // NS, tz).date() - datetime.timedelta(days=1)
+    end = datetime.datetime.fromtimestamp(hi_ns // NS, tz).date() + datetime.timedelta(days=1)
+    out = []
+    while d <= end:
+        out.append((d, [g * NS for g in daily_candidates(c, d, tz)]))
+        d += datetime.timedelta(days=1)
+    return out
+
+
 def grid_points(c, start_ns, lo_ns, hi_ns):
-    """rotation points of the schedule in (lo, hi], computed independently (zoneinfo)"""
+    """rotation points of the schedule in (lo, hi] (and after start), computed independently (zoneinfo); daily:
+    every candidate instant of every day"""
     tz = zone_of(c)
     pts = []
     if c['freq'] in (2, 3):
@@ -345,17 +407,23 @@ def grid_points(c, start_ns, lo_ns, hi_ns):
             if g * NS > lo_ns: pts.append(g * NS)
             g += per
     elif c['freq'] == 1:
-        d = datetime.datetime.fromtimestamp(lo_ns // NS, tz).date() - datetime.timedelta(days=1)
-        end = datetime.datetime.fromtimestamp(hi_ns // NS, tz).date() + datetime.timedelta(days=1)
-        while d <= end:
-            for fold in (0, 1):
-                loc = datetime.datetime(d.year, d.month, d.day, c['hh'], c['mm'], 0, tzinfo=tz, fold=fold)
-                g = int(loc.timestamp())
-                back = datetime.datetime.fromtimestamp(g, tz)
-                if (back.hour, back.minute, back.second) == (c['hh'], c['mm'], 0) and back.date() == d:
-                    if lo_ns < g * NS <= hi_ns and g * NS > start_ns and g * NS not in pts: pts.append(g * NS)
-            d += datetime.timedelta(days=1)
+        for d, cands in daily_days(c, lo_ns, hi_ns):
+            for g in cands:
+                if lo_ns < g <= hi_ns and g > start_ns and g not in pts: pts.append(g)
     return sorted(pts)
+
+
+def point_certainly_between(c, start_ns, lo_ns, hi_ns):
+    """a rotation point lies in (lo, hi] whatever the C library picks for an ambiguous HH:MM: hourly / minutely:
+    any grid point; daily: a day all of whose candidate instants are after start and in (lo, hi].
+    Returns such a point or None."""
+    if c['freq'] != 1:
+        g = grid_points(c, start_ns, lo_ns, hi_ns)
+        return g[0] if g else None
+    for d, cands in daily_days(c, lo_ns, hi_ns):
+        if all(g > start_ns and lo_ns < g <= hi_ns for g in cands):
+            return cands[0]
+    return None
 
 
 def monitor_c15(case, impl_line):
@@ -388,9 +456,9 @@ def monitor_c15(case, impl_line):
         for cl, comps, size, ids in sink:
             mine = [i for i in ids if i in ts]
             for a, b in zip(mine, mine[1:]):
-                g = grid_points(c, start, ts[a], ts[b])
-                if g:
-                    return 'statements %d (ts %d) and %d (ts %d) share %s although the rotation point %d lies between them' % (a, ts[a], b, ts[b], '.'.join(comps), g[0])
+                g = point_certainly_between(c, start, ts[a], ts[b])
+                if g is not None:
+                    return 'statements %d (ts %d) and %d (ts %d) share %s although the rotation point %d lies between them' % (a, ts[a], b, ts[b], '.'.join(comps), g)
     # --- shares
     sizes = {tuple(s[1]): s[2] for s in sink}
     for a, b in zip(order, order[1:]):
